@@ -570,6 +570,29 @@ Proof.
   pose proof (filter_len_le (fun a => is_job_kind (fa_kind a)) (map fst (rb_jobs r))) as Hle. rewrite map_length in Hle. lia.
 Qed.
 
+(* ------------------------------------------------------------------ misplaced break: reported at another location *)
+Lemma mut_break_loc_invalid P S k s a l st x :
+  stop_at S k s = Some st -> nth_error (ss_acts st) a = Some x -> l <> ss_loc st ->
+  valid_b P (mutS (MBreakLoc k s a l) S) <> [].
+Proof.
+  intros Hst Hx Hl HV.
+  assert (Hsite : stop_at S k s <> None) by congruence.
+  destruct (site_stop _ _ _ Hsite) as [t [st' [Hk Hs]]].
+  assert (st' = st) by (unfold stop_at, tour_at in Hst; rewrite Hk, Hs in Hst; congruence). subst st'.
+  set (g := set_acts (upd_nth a (set_loc l))).
+  assert (Hk' : nth_error (sl_tours (mutS (MBreakLoc k s a l) S)) k = Some (set_stops (upd_nth s g) t)).
+  { cbn [mutS upd_stop set_tours sl_tours]. apply nth_error_upd_nth_eq. exact Hk. }
+  destruct (valid_tour _ _ _ _ HV Hk') as [_ HR].
+  destruct (replay_tour_nil _ _ _ HR) as [r [_ [_ [Hsc _]]]].
+  assert (Hs' : nth_error (to_stops (set_stops (upd_nth s g) t)) s = Some (g st)).
+  { cbn [set_stops to_stops]. apply nth_error_upd_nth_eq. exact Hs. }
+  unfold stop_checks in Hsc. pose proof (concat_mapi_nil _ _ _ _ Hsc Hs') as H1. cbv beta in H1.
+  apply app_nil_iff in H1. destruct H1 as [H1 _]. apply if_nil_iff in H1. rewrite forallb_forall in H1.
+  assert (Hin : In (set_loc l x) (ss_acts (g st))).
+  { subst g. cbn [set_acts ss_acts]. eapply nth_error_In. apply nth_error_upd_nth_eq. exact Hx. }
+  specialize (H1 _ Hin). subst g. cbn [set_loc sa_loc set_acts ss_loc] in H1. apply Z.eqb_eq in H1. contradiction.
+Qed.
+
 (* ------------------------------------------------------------------ all proved classes at once *)
 Lemma some_b_true {A} (o : option A) f : some_b o f = true -> exists x, o = Some x /\ f x = true.
 Proof. destruct o as [x|]; cbn [some_b]; [intros H; exists x; auto|discriminate]. Qed.
@@ -578,7 +601,8 @@ Proof. intros H. apply negb_true_iff in H. apply Z.eqb_neq in H. exact H. Qed.
 
 Lemma breach_is_invalid_partial m P S :
   valid_b P S = [] -> applicable_b m P S = true ->
-  match m with MCapacity _ _ | MArrival _ _ _ | MDupAct _ _ | MDropStop _ _ | MMoveStop _ _ _ => True
+  match m with MCapacity _ _ | MArrival _ _ _ | MDupAct _ _ | MDropStop _ _ | MMoveStop _ _ _
+               | MBreakDup _ _ _ | MBreakDrop _ _ _ => True
           | _ => valid_b (mutP m P S) (mutS m S) <> [] end.
 Proof.
   intros HV Happ. destruct m; cbn [applicable_b] in Happ; cbv beta iota; try exact I; cbn [mutP].
@@ -604,6 +628,9 @@ Proof.
   - apply some_b_true in Happ. destruct Happ as [t [Hk _]]. exact (mut_limit_distance_invalid P S k t Hk).
   - apply some_b_true in Happ. destruct Happ as [t [Hk _]]. exact (mut_limit_duration_invalid P S k t Hk).
   - apply some_b_true in Happ. destruct Happ as [t [Hk _]]. exact (mut_limit_size_invalid P S k t Hk).
+  - apply some_b_true in Happ. destruct Happ as [st [Hst Hb]]. apply andb_true_iff in Hb. destruct Hb as [Hl Hx].
+    apply negb_true_iff in Hl. apply Z.eqb_neq in Hl. apply some_b_true in Hx. destruct Hx as [x [Hx _]].
+    exact (mut_break_loc_invalid P S k s a l st x Hst Hx Hl).
 Qed.
 
 Lemma c12_nonvacuous : valid_b ex_P ex_S = []
